@@ -92,6 +92,12 @@ VECTOR_ATOMS = {
     "vpowsum:1.5@neg": (lambda V: ["sum", ["vpow", V, 1.5]], _powc(1.5), -0.5, "zero", 1.3),
     "vpowsum:2.5@neg": (lambda V: ["sum", ["vpow", V, 2.5]], _powc(2.5), -0.75, "zero", 1.3),
     "norm1@0": (lambda V: ["norm", V, 1, "method"], _fn("abs"), 0.0, "zero", 1.3),
+    # a component that is exactly the NEGATIVE zero (a product with a negative factor that underflowed, -0.0 read from data): there is no
+    # one-sided limit to prescribe, but the entry is finite and the vectorised and the general path return the same number
+    "vsum:sqrt@-0": (lambda V: ["sum", ["vfn", "sqrt", V]], _fn("sqrt"), -0.0, "finite-only", 1.3),
+    "vsum:log@-0": (lambda V: ["sum", ["vfn", "log", V]], _fn("log"), -0.0, "finite-only", 1.3),
+    "vpowsum:0.5@-0": (lambda V: ["sum", ["vpow", V, 0.5]], _powc(0.5), -0.0, "finite-only", 1.3),
+    "vpowsum:-1@-0": (lambda V: ["sum", ["vpow", V, -1]], _powc(-1.0), -0.0, "finite-only", 1.3),
 }
 VRELS = ["exact", "permuted", "superset", "superset_permuted"]
 
@@ -133,7 +139,7 @@ def info(tier):
     cells += [f"masked|{path}" for path in ("gradient", "jacobian", "hessian")]
     return {
         "level": LEVEL,
-        "rule": "separable sums of singular atoms (17 scalar, 7 vectorised, L2 norm) with coefficients of both signs and a "
+        "rule": "separable sums of singular atoms (%d scalar, %d vectorised incl. negative-zero components, L2 norm)" % (len(SCALAR_ATOMS), len(VECTOR_ATOMS)) + " with coefficients of both signs and a "
         "regular remainder, also as term-by-term accumulations of 400+ terms (iterative differentiator / compiler), evaluated at points with some coordinates exactly singular; every entry of compile_gradient / "
         "compile_jacobian (1 and several rows) / compile_hessian output checked: finite always, exact class at singular "
         "coordinates of first derivatives, jet value at regular coordinates, vectorised == element-wise spelling; "
@@ -317,7 +323,7 @@ def run_item(rec, rng, item):
             point.setdefault("s", 0.8)
             shifted.setdefault("s", 0.8)
             j, _ = R.ref_jet(D, node_v, V, shifted, order=1)
-            expected = {i: (("exact", expected_entry(*sing[nm])) if nm in sing else ("jet", float(j.g[i]))) for i, nm in enumerate(V)}
+            expected = {i: ((("finite-only", None) if sing[nm][0] == "finite-only" else ("exact", expected_entry(*sing[nm]))) if nm in sing else ("jet", float(j.g[i]))) for i, nm in enumerate(V)}
         si = V.index("s")
         expected[si] = ("jet", expected[si][1] + csum)
         show = {**show, "V": V, "point": {k: point[k] for k in V}, "expr": f"[{item['deep']} terms c_k*s accumulated {item['where']}] " + show["expr"]}
@@ -372,8 +378,8 @@ def run_item(rec, rng, item):
                 exp2[i] = ("exact", 2.0 if nm == "s" else 0.0)
                 if nm in sing:
                     ex_, coef = sing[nm]
-                    exp2[n + i] = ("exact", expected_entry(ex_, coef))
-                    exp2[2 * n + i] = ("exact", expected_entry(ex_, -coef))
+                    exp2[n + i] = ("finite-only", None) if ex_ == "finite-only" else ("exact", expected_entry(ex_, coef))
+                    exp2[2 * n + i] = ("finite-only", None) if ex_ == "finite-only" else ("exact", expected_entry(ex_, -coef))
                 else:
                     exp2[n + i] = ("jet", float(jm.g[i]))
                     exp2[2 * n + i] = ("jet", -2.0 * float(jm.g[i]))
@@ -449,6 +455,11 @@ def composite_items():
         ("composite:qf^0.5@origin", ["bin", "**", ["qf", ["slice", x, 0, 2, None], [[2.0, 0.5], [0.5, 1.0]]], ["raw", 0.5, "float"]], O4),
         ("composite:norm^-1@origin", ["bin", "**", ["norm", x, 2, "method"], ["raw", -1, "int"]], O4),
         ("composite:mean-log", ["bin", "/", ["sum", ["vfn", "log", x]], ["raw", 4.0, "float"]], O4),
+        # a summed vector expression with poles of BOTH signs at the point (+inf and -inf among the terms), nested as a factor / base /
+        # argument so that its value closure is part of the derivative
+        ("composite:a*sum(c/x)@mixed-sign-poles", ["bin", "*", a, ["sum", ["vrbin", "/", ["arr", [1.0, -1.0, 2.0, -2.0]], x]]], {"a": 1.5, **O4}),
+        ("composite:(sum(c/x))^2@mixed-sign-poles", ["bin", "**", ["sum", ["vrbin", "/", ["arr", [1.0, -1.0, 2.0, -2.0]], x]], ["raw", 2, "int"]], O4),
+        ("composite:sum(c/x)*sum(x)@two-poles", ["bin", "*", ["sum", ["vrbin", "/", ["arr", [1.0, -3.0, 0.5, 2.0]], x]], ["sum", x]], {"x[0]": 0.0, "x[1]": 0.0, "x[2]": 0.7, "x[3]": 0.9}),
     ]
 
 
